@@ -72,11 +72,14 @@ T = {
 
 
 def main():
+    # a property is claimed only when listed in mcheck/READY (one id per line) - a module file that is
+    # still being written must not be registered by accident
+    READY = set(open(os.path.join(HERE, 'mcheck', 'READY')).read().split())
     checks = []
     na = []
     for pid in sorted(T):
         eng, tech, text, note = T[pid]
-        if os.path.exists(os.path.join(HERE, 'mcheck', 'props', pid.lower() + '.py')):
+        if pid in READY:
             checks.append({
                 'property_id': pid,
                 'quick_cmd': './mc %s quick' % pid,
